@@ -18,7 +18,20 @@ func (x *Exec) chanReady(st *State, ch Val) Term {
 // chanSend models ch <- v. A plain (blocking) send outside select raises a blocking obligation.
 func (x *Exec) chanSend(st *State, ch Val, v Val, blocking bool) {
 	if blocking {
-		st.oblige("blocking:chansend:"+x.site("send"), []string{"BLOCK"}, x.chanReady(st, ch), "channel send cannot block (receiver ready or buffer not full)")
+		reason := ""
+		if sp := x.eng.funcSpecs[funcKey(st.top().fn)]; sp != nil {
+			reason = sp.AssumeNonBlocking
+		}
+		if reason == "" && st.top().fn.Parent() != nil {
+			if sp := x.eng.funcSpecs[funcKey(st.top().fn.Parent())]; sp != nil {
+				reason = sp.AssumeNonBlocking
+			}
+		}
+		if reason != "" {
+			x.assumeNote("A-nonblocking (" + funcKey(st.top().fn) + "): " + reason)
+		} else {
+			st.oblige("blocking:chansend:"+x.site("send"), []string{"C08"}, x.chanReady(st, ch), "channel send cannot block (receiver ready or buffer not full)")
+		}
 	}
 	st.addEvent(Event{Kind: "chansend", Args: []Val{ch, v}})
 }
